@@ -555,3 +555,127 @@ mod demo {
         km::block_hash_of(km::w2h([7, 7, 7, 7]))
     }
 }
+
+// ---------------------------------------------------------------------------------------
+// After completion: equivocation is still detected and reported (C12 / C13: "a second validly
+// signed commitment for a slice is reported as equivocation", at any time - also after the block
+// of the slot was assembled and announced).
+// ---------------------------------------------------------------------------------------
+
+/// Stub for `BlockData::try_reconstruct_slice` (Kani only), as in `kani_c12_bs::cut`: the cut
+/// "up to, not including, Reed-Solomon".  With `completed` set or fewer than DATA_SHREDS shreds
+/// the real function leaves without touching any state.
+#[cfg(kani)]
+pub(crate) fn try_reconstruct_slice_cut(this: &mut BlockData, index: SliceIndex, _shredder: &mut RegularShredder) -> ReconstructSliceResult {
+    if this.completed.is_some() || this.slices.contains_key(&index) {
+        return ReconstructSliceResult::NoAction;
+    }
+    if this.shreds.get(&index).is_none() {
+        panic!("caller must insert at least one shred before reconstructing");
+    }
+    ReconstructSliceResult::NoAction
+}
+
+struct ShredderBox13 {
+    #[cfg(kani)]
+    mu: std::mem::MaybeUninit<RegularShredder>,
+    #[cfg(not(kani))]
+    real: RegularShredder,
+}
+impl ShredderBox13 {
+    fn new() -> Self {
+        #[cfg(kani)]
+        {
+            Self { mu: std::mem::MaybeUninit::uninit() }
+        }
+        #[cfg(not(kani))]
+        {
+            Self { real: RegularShredder::default() }
+        }
+    }
+    fn get(&mut self) -> &mut RegularShredder {
+        #[cfg(kani)]
+        {
+            // SAFETY: never touched - slice reconstruction is cut under Kani
+            unsafe { &mut *self.mu.as_mut_ptr() }
+        }
+        #[cfg(not(kani))]
+        {
+            &mut self.real
+        }
+    }
+}
+
+/// One-slice block: shred 0 of slice 0 (marked last) arrives through the real
+/// `SlotBlockData::add_shred_from_dissemination`; the slice is then decoded (the harness installs
+/// the decoded slice the way `try_reconstruct_slice` does: Reed-Solomon is out of reach) and the
+/// real `try_reconstruct_block` assembles and announces the block.  Afterwards a second validly
+/// signed shred B for the same slot arrives (shred index 1; slice index, last-slice flag and
+/// payload arbitrary).  It must be reported as equivocation exactly when it contradicts what
+/// was accepted (another commitment for slice 0, or any slice beyond the last one / a second
+/// last slice), and the block already announced must stay as it is.
+fn post_body() {
+    km::init_oracle(4, 16);
+    let slot = vs::any_u64();
+    let a_data: [u8; sh::D] = vs::any_bytes::<{ sh::D }>();
+    let b_slice = sh::any_slice_index();
+    let b_last = vs::any_bool();
+    let b_data: [u8; sh::D] = vs::any_bytes::<{ sh::D }>();
+    let parent = any_pid();
+    vs::assume(parent.slot < slot);
+    let s0 = slice_index(0);
+
+    let va = sh::mk_validated::<0>(false, sh::mk_header(slot, s0, true), 0, a_data, &[]);
+    let vb = sh::mk_validated::<0>(false, sh::mk_header(slot, b_slice, b_last), 1, b_data, &[]);
+    let ca = va.commitment();
+    let cb = vb.commitment();
+    let root_a = va.slice_root().clone();
+    let differ = !sh::commit_eq(&sh::commitment_bytes(&ca), &sh::commitment_bytes(&cb));
+
+    let mut sbd = SlotBlockData::new(Slot::new(slot));
+    let mut shredder = ShredderBox13::new();
+    let r1 = sbd.add_shred_from_dissemination(va, shredder.get());
+    vcheck!(matches!(&r1, Ok(Some(BlockstoreEvent::FirstShred(s))) if s.inner() == slot), "the first shred of a block is not announced as FirstShred");
+    // the slice decodes (what try_reconstruct_slice stores after Reed-Solomon)
+    sbd.disseminated.slices.insert(s0, mk_reconstructed(sh::mk_header(slot, s0, true), Some(parent.id()), empty_txs(), root_a));
+    let r = outcome(sbd.disseminated.try_reconstruct_block());
+    let completed = matches!(r, Outcome::Complete(_));
+    vcheck!(completed, "a well-formed one-slice block was not assembled");
+    let hash_before = match &sbd.disseminated.completed {
+        Some((h, _)) => Some(km::block_hash_words(h)),
+        None => None,
+    };
+
+    let r2 = sbd.add_shred_from_dissemination(vb, shredder.get());
+
+    let same_slice = b_slice == s0;
+    let contradicts = if same_slice { differ } else { true }; // any other slice lies beyond the last one
+    let equiv = matches!(r2, Err(AddShredError::Equivocation));
+    vcheck!(equiv == contradicts, "after the block of the slot was assembled, a second validly signed commitment (or a slice beyond the last one) is not reported as Equivocation exactly when it contradicts what was accepted");
+    if !equiv {
+        vcheck!(matches!(r2, Ok(None)) || matches!(r2, Err(AddShredError::Duplicate)), "a consistent late shred was neither accepted silently nor dropped as a duplicate");
+    }
+    let hash_after = match &sbd.disseminated.completed {
+        Some((h, _)) => Some(km::block_hash_words(h)),
+        None => None,
+    };
+    vcheck!(hash_after.is_some() && hash_after == hash_before, "a late shred changed the block already announced");
+    vcover!(equiv && same_slice, "conflicting commitment for the assembled slice");
+    vcover!(equiv && !same_slice, "slice beyond the last one");
+    vcover!(!equiv, "consistent late shred");
+    std::mem::forget(r1);
+    std::mem::forget(r2);
+    std::mem::forget(r);
+    std::mem::forget(sbd);
+}
+
+#[cfg_attr(kani, kani::proof)]
+#[cfg_attr(kani, kani::stub(crate::crypto::hash::hash_all, crate::crypto::merkle::kani_c12_merkle::hash_all_oracle))]
+#[cfg_attr(kani, kani::stub(log::max_level, crate::crypto::merkle::kani_c12_merkle::log_off))]
+#[cfg_attr(kani, kani::stub(wincode::config::deserialize_exact, crate::consensus::blockstore::slot_block_data::kani_c13::deserialize_exact_model))]
+#[cfg_attr(kani, kani::stub(crate::consensus::blockstore::slot_block_data::BlockData::try_reconstruct_slice, crate::consensus::blockstore::slot_block_data::kani_c13::try_reconstruct_slice_cut))]
+#[cfg_attr(kani, kani::unwind(34))]
+#[cfg_attr(verif_replay, test)]
+fn c13_post_equiv() {
+    post_body()
+}
